@@ -1128,6 +1128,9 @@ impl SimdLz77Compressor {
         let mut output = Vec::new();
 
         for pa_zip_match in matches {
+            if pa_zip_match.length() > crate::entropy::MAX_DECOMPRESSED_SIZE.saturating_sub(output.len()) {
+                return Err(ZiporaError::invalid_data("Match length exceeds the decompressed size limit"));
+            }
             match pa_zip_match {
                 Match::Literal { length } => {
                     // For test purposes, add some literal data to build up the output buffer
